@@ -9,8 +9,9 @@ use crate::value::Value;
 macro_rules! harness {
     ($name:ident, $body:expr) => {
         #[kani::proof]
-        #[kani::unwind(5)]
+        #[kani::unwind(3)]
         #[kani::stub(std::ptr::drop_in_place, noop_drop)]
+        #[kani::stub(core::str::from_utf8, from_utf8_model)]
         fn $name() {
             $body
         }
@@ -96,26 +97,27 @@ fn roundtrip(d: &B) {
 
 //@ props: C01
 //@ timeout: 900
-//@ harness: c01_scalar
+//@ harness: c01_scalar, c01_scalar_b
 //@ desc: scalar documents of all 11 (kind,width) classes built from the README layout with symbolic payloads: parse_jsonb returns exactly that value and to_vec reproduces the bytes
 //@ fns: parse_jsonb, Decoder::decode_jsonb, Decoder::decode_scalar, Number::decode, Encoder::encode, Encoder::encode_scalar, Encoder::encode_value, Number::compact_encode
 //@ bounds: strings <= 2 bytes
-//@ stubs: drop_in_place -> no-op
-harness!(c01_scalar, split1(NCLS, |i| roundtrip(&B::build(&lf(CLS[i])))));
+//@ stubs: drop_in_place -> no-op | core::str::from_utf8 -> specification model
+harness!(c01_scalar, split1(6, |i| roundtrip(&B::build(&lf(CLS[i])))));
+harness!(c01_scalar_b, split1(5, |i| roundtrip(&B::build(&lf(CLS[6 + i])))));
 
 //@ props: C01
 //@ timeout: 1200
 //@ harness: c01_shape_0, c01_shape_1, c01_shape_2, c01_shape_3, c01_shape_4, c01_shape_8, c01_shape_67
-//@ desc: container documents [x,y,s], [[x],y], [x,{k:y},n], {k:x,kk:y}, {"":x,k:[y]}, {k:{j:x},k':y,kk:null}, [] and {} built from the README layout (x,y case-split over (kind,width) classes, symbolic payloads and key bytes, keys sorted unique): decode gives exactly that tree, re-encode gives the identical bytes
+//@ desc: container documents [x,y,s], [[x],y], [x,{k:y},n], {k:x,kk:y}, {"":x,k:[y]}, {k:{j:x},k':y,kk:null}, [] and {} built from the README layout (one class assignment per shape mixing all payload widths 0/1/2/3/5/9; symbolic payloads and key bytes, keys sorted unique): decode gives exactly that tree, re-encode gives the identical bytes
 //@ fns: parse_jsonb, Decoder::decode_array, Decoder::decode_object, Decoder::decode_jentries, Encoder::encode_array, Encoder::encode_object, Encoder::reserve_jentries, Encoder::replace_jentry
 //@ bounds: depth 2, <= 3 children, strings/keys <= 2 bytes
-//@ stubs: drop_in_place -> no-op
-harness!(c01_shape_0, shapes_split(0, &CLS_S, NCLS_S, |d| roundtrip(d)));
-harness!(c01_shape_1, shapes_split(1, &CLS_T, 3, |d| roundtrip(d)));
-harness!(c01_shape_2, shapes_split(2, &CLS_T, 3, |d| roundtrip(d)));
-harness!(c01_shape_3, shapes_split(3, &CLS_S, NCLS_S, |d| roundtrip(d)));
-harness!(c01_shape_4, shapes_split(4, &CLS_T, 3, |d| roundtrip(d)));
-harness!(c01_shape_8, shapes_split(8, &CLS_T, 3, |d| roundtrip(d)));
+//@ stubs: drop_in_place -> no-op | core::str::from_utf8 -> specification model
+harness!(c01_shape_0, with_shape(0, (K_NUM, 9), (K_NULL, 0), |d| roundtrip(d)));
+harness!(c01_shape_1, with_shape(1, (K_STR, 2), (K_NUM, 2), |d| roundtrip(d)));
+harness!(c01_shape_2, with_shape(2, (K_TRUE, 0), (K_NUM, 5), |d| roundtrip(d)));
+harness!(c01_shape_3, with_shape(3, (K_NUM, 3), (K_STR, 1), |d| roundtrip(d)));
+harness!(c01_shape_4, with_shape(4, (K_FALSE, 0), (K_NUM, 1), |d| roundtrip(d)));
+harness!(c01_shape_8, with_shape(8, (K_NUM, 2), (K_STR, 0), |d| roundtrip(d)));
 harness!(c01_shape_67, split1(2, |k| shapes_split(6 + k, &CLS_T, 1, |d| roundtrip(d))));
 
 //@ props: C01
@@ -124,7 +126,7 @@ harness!(c01_shape_67, split1(2, |k| shapes_split(6 + k, &CLS_T, 1, |d| roundtri
 //@ desc: vacuity twin: decoding a 2-element array claimed to fail — must be refuted
 //@ fns: parse_jsonb
 #[kani::proof]
-#[kani::unwind(5)]
+#[kani::unwind(3)]
 #[kani::stub(std::ptr::drop_in_place, noop_drop)]
 fn c01_twin_must_fail() {
     let d = B::build(&arr(&[leaf(K_NUM, 2), leaf(K_STR, 1)]));
